@@ -268,6 +268,20 @@ int main(){ const int nfft=64; int bad=0; double freqs[]={0.25,-0.25,0.109375,-0
 '''
 
 
+@adapter(r'_welch<cmplx>.*dft_or_label_order')
+def welch_third_order(o):
+    return HDR + '''
+// C13: for a pure complex tone at DFT bin b the maximum lies either at the entry labelled with the tone's frequency (the
+// property) or at entry b mod nfft (DFT order, the recorded finding); any other position is a new violation
+int main(){ const int nfft=64; int bad=0; int bins[]={16,-16,7,-28,1,31};
+  for(int b: bins){ const double f0 = double(b)/nfft; arr_cmplx x(4096); for(int i=0;i<x.size();++i) x[i]=cmplx_t{std::cos(2*pi*f0*i), std::sin(2*pi*f0*i)};
+    auto r = welch(x, window::hamming(nfft), nfft/2, nfft, SpectrumType::Psd); int k=argmax(r.pxx);
+    const bool by_label = std::fabs(r.f[k]-f0) < 0.5/nfft; const bool dft = (k == ((b % nfft) + nfft) % nfft);
+    if(!by_label && !dft){ std::printf("tone at bin %d: peak at entry %d labelled %g\\n", b, k, r.f[k]); ++bad; } }
+  return bad?1:0; }
+'''
+
+
 @adapter(r'hilbert\(x\).*one_sided_weights')
 def hilbert_weights(o):
     return HDR + '''
